@@ -5,19 +5,21 @@
 
    The fragment: bool, integers of every width, strings, interface{} (with
    UseNumber: numbers keep their text), pointers, slices, arrays, maps with
-   string keys, structs with exact-case keys.  Floats are left out (their
+   string keys, structs with exact-case keys, []byte (a base64 string, or an
+   array of numbers as for any other slice).  Floats are left out (their
    value is strconv's on both sides).  The harness runs this function beside
    encoding/json (which validates it as a reading of encoding/json) and beside
    go-json (which is the check), on generated (type, document, initial value). *)
 From Coq Require Import NArith ZArith List Bool.
-From GJ Require Import Base.Bytes Base.Show Spec.Json Model.Int Model.StrDec Model.Enc Model.TreeRead.
+From GJ Require Import Base.Bytes Base.Show Spec.Json Model.Int Model.StrDec Model.Enc Model.TreeRead Model.Base64.
 Import ListNotations.
 Open Scope N_scope.
 
 Inductive ty :=
 | TBool | TInt (bits : N) | TUint (bits : N) | TString | TIface
 | TPtr (t : ty) | TSlice (t : ty) | TArr (n : nat) (t : ty) | TMap (t : ty)
-| TStruct (fs : list (list N * ty)).
+| TStruct (fs : list (list N * ty))
+| TBytes.                                (* []byte; its values are those of TSlice (TUint 8) *)
 
 (* what an interface{} holds after decoding (UseNumber): the document itself, strings decoded, the last of equal keys *)
 Inductive gen :=
@@ -37,7 +39,7 @@ Fixpoint zero (t : ty) : gv :=
   | TBool => VBool false
   | TInt _ | TUint _ => VInt 0
   | TString => VStr []
-  | TIface | TPtr _ | TSlice _ | TMap _ => VNil
+  | TIface | TPtr _ | TSlice _ | TMap _ | TBytes => VNil
   | TArr n e => VArr (repeat (zero e) n)
   | TStruct fs => VStruct (map (fun kt : list N * ty => zero (snd kt)) fs)
   end.
@@ -191,7 +193,7 @@ Fixpoint dec (fuel : nat) (t : ty) (d : jv) (init : gv) : dres :=
   | S f =>
       if is_null d then
         match t with
-        | TIface | TPtr _ | TSlice _ | TMap _ => DOk VNil
+        | TIface | TPtr _ | TSlice _ | TMap _ | TBytes => DOk VNil
         | _ => DOk init
         end
       else
@@ -223,6 +225,16 @@ Fixpoint dec (fuel : nat) (t : ty) (d : jv) (init : gv) : dres :=
           | JObj l => struct_loop (dec f) fs l (match init with VStruct o => o | _ => map (fun kt : list N * ty => zero (snd kt)) fs end)
           | _ => DErr
           end
+      | TBytes =>
+          match d with
+          | JLeaf (TStr b) =>
+              match unq b with
+              | Some s => match b64dec s with Some bs => DOk (VSlice (map (fun x => VInt (Z.of_N x)) bs)) | None => DErr end
+              | None => DErr
+              end
+          | JArr l => slice_loop (dec f (TUint 8)) (zero (TUint 8)) l (match init with VSlice o => o | _ => [] end) []
+          | _ => DErr
+          end
       end
   end.
 
@@ -249,11 +261,13 @@ Fixpoint has_type (t : ty) (v : gv) : bool :=
          | (_, ft) :: fr, x :: lr => has_type ft x && all fr lr
          | _, _ => false
          end) fs l
+  | TBytes, VNil => true
+  | TBytes, VSlice l => forallb (fun x => match x with VInt z => in_range false 8 z | _ => false end) l
   | _, _ => false
   end.
 
 (* ---- wire formats of the harness ----
-   type:  b | i<bits>: | u<bits>: | s | f | p<ty> | l<ty> | a<n>:<ty> | m<ty> | r<count>:(<len>:<key><ty>)*
+   type:  b | i<bits>: | u<bits>: | s | f | y | p<ty> | l<ty> | a<n>:<ty> | m<ty> | r<count>:(<len>:<key><ty>)*
    value: Z | T | F | I<len>:<decimal, may start with -> | S<len>:<bytes> | P<v> | L<count>:<v>* | A<count>:<v>* |
           M<count>:(<len>:<key><v>)* | R<count>:<v>* | G<gen>
    gen:   n | t | f | #<len>:<raw> | $<len>:<bytes> | [<count>:<gen>* | {<count>:(<len>:<key><gen>)*          *)
@@ -267,6 +281,7 @@ Fixpoint parse_ty (fuel : nat) (l : list N) : option (ty * list N) :=
           if c =? 98 then Some (TBool, r)
           else if c =? 115 then Some (TString, r)
           else if c =? 102 then Some (TIface, r)
+          else if c =? 121 then Some (TBytes, r)
           else if c =? 105 then match take_num r 0 20 with Some (n, r') => Some (TInt (N.of_nat n), r') | None => None end
           else if c =? 117 then match take_num r 0 20 with Some (n, r') => Some (TUint (N.of_nat n), r') | None => None end
           else if c =? 112 then match parse_ty f r with Some (e, r') => Some (TPtr e, r') | None => None end
